@@ -1,22 +1,34 @@
 (* driver for the C01 model: one case per line
      <op> <kr> <kc> kernel-cells.. <rows> <cols> cells.. <dy> <dx> <ncy> cy.. <ncx> cx..
-   op: conv | curv | horn | apply0 (nansum) | apply1 (nanmax) | apply2 (nanmin) | mean0 (sum) | mean1 (count)
-   (curv/horn/mean ignore the kernel; pass "0 0")
-   output: the whole-raster result, " | ", the chunked (map_overlap) result; cells row-major *)
+   op: conv | curv | horn | hill | apply0 (nansum) | apply1 (nanmax) | apply2 (nanmin) | mean0 (sum) | mean1 (count)
+   (curv/horn/hill/mean ignore the kernel; pass "0 0")
+   output: the whole-raster result, " | ", the chunked (map_overlap) result; cells row-major
+     ramp <ax> <stx> <ay> <sty> <ncy> cy.. <ncx> cx..
+   output: whole coordinate raster " | " blockwise coordinate raster; each cell is x*1000003 + y *)
 open Model
 open Zio
 open Xio
+let next_chunks r = next_list r (fun r -> pos_of_int (next_int r))
+let rec sum_pos = function [] -> 0 | p :: r -> int_of_pos p + sum_pos r
 let () = main_loop (fun op r ->
+  if op = "ramp" then begin
+    let ax = next_z r in let stx = next_z r in let ay = next_z r in let sty = next_z r in
+    let cy = next_chunks r in let cx = next_chunks r in
+    let h = z_of_int (sum_pos cy) and w = z_of_int (sum_pos cx) in
+    string_of_grid string_of_z (zramp_whole ax stx ay sty h w) ^ " | " ^
+    string_of_grid string_of_z (zramp_blocks ax stx ay sty cy cx)
+  end else begin
   let k = next_grid r next_xv in
   let g = next_grid r next_xv in
   let dy = next_z r in
   let dx = next_z r in
-  let cy = next_list r (fun r -> pos_of_int (next_int r)) in
-  let cx = next_list r (fun r -> pos_of_int (next_int r)) in
+  let cy = next_chunks r in
+  let cx = next_chunks r in
   let f = match op with
     | "conv" -> xconv k
     | "curv" -> xcurv
     | "horn" -> xhorn
+    | "hill" -> xhill
     | "apply0" -> xapply (z_of_int 0) k
     | "apply1" -> xapply (z_of_int 1) k
     | "apply2" -> xapply (z_of_int 2) k
@@ -24,4 +36,5 @@ let () = main_loop (fun op r ->
     | "mean1" -> xmean_part (z_of_int 1)
     | _ -> failwith ("unknown-op " ^ op) in
   string_of_grid string_of_xv (run_whole f g) ^ " | " ^
-  string_of_grid string_of_xv (run_overlap f dy dx cy cx g))
+  string_of_grid string_of_xv (run_overlap f dy dx cy cx g)
+  end)
